@@ -400,6 +400,11 @@ def impl_env():
     env['RBQL_VERIF'] = '1'
     env['PYTHONDONTWRITEBYTECODE'] = '1'
     env['HOME'] = os.path.join(BUILD, 'home')     # no ~/.rbql_init_source.py, no ~/.rbql_table_names
+    if os.environ.get('VERIF_COVERAGE'):
+        # development aid (harness/coverage_report.py; never set by the registered commands): which lines of the implementation the
+        # correspondence runs execute - a line no run reaches is a place where no change can be seen
+        env['PYTHONPATH'] = env['PYTHONPATH'] + os.pathsep + os.path.join(VERIF, 'harness', 'cov')
+        env['NODE_V8_COVERAGE'] = os.path.join(os.environ['VERIF_COVERAGE'], 'v8')
     os.makedirs(env['HOME'], exist_ok=True)
     return env
 
